@@ -43,6 +43,8 @@ def accounting_problem(L, data, obs):
         return ("emitted-not-prefix", f"bytes of the emitted fields {emitted.hex()} are not the input prefix {data[:n].hex()}")
     if o["kind"] == "value":
         consumed = L.width(o["type"]) if L.is_prim(o["type"]) else None
+        if o["type"] == "TPM_CC" and not o["constraint_path"].startswith(".") and obs.events and obs.events[0][1] == "Response":
+            consumed = 0  # the command code handed to a response decode is not on the wire
     elif o["kind"] == "exceeded":
         consumed = max(0, o["size_max"] - o["size_already"])
     else:
